@@ -494,6 +494,19 @@ def rule_sk_stop(cx, rep, port):
         if not (inner is not None and is_name(inner, 'stop_flag')):
             rep.violated(sk.name, w, 'main loop condition `{}` is not `not stop_flag`'.format(node_text(w.test)))
             continue
+        # ... and the flag starts out False: whether table A is read at all does not depend on anything
+        in_loop = {id(x) for x in ast.walk(w)}
+        inits = [n for st in sk.body for n in ast.walk(st) if isinstance(n, ast.Assign) and id(n) not in in_loop and any(is_name(t, 'stop_flag') for t in n.targets)]
+        bad_init = [n for n in inits if not is_false(n.value)]
+        if bad_init:
+            if 'update' in sk.name:
+                rep.violated(sk.name + ' initial stop flag', bad_init[0], 'the main loop starts with stop_flag = `{}`: under that condition no record of table A is read, but an UPDATE has to write every record of A (changed or not)'.format(node_text(bad_init[0].value, 80)))
+            else:
+                rep.undecided(sk.name + ' initial stop flag', bad_init[0], 'the main loop starts with stop_flag = `{}`: whether skipping table A is right for this kind of query is not decided'.format(node_text(bad_init[0].value, 80)))
+            continue
+        if not inits:
+            rep.undecided(sk.name + ' initial stop flag', w, 'initialisation of stop_flag not found')
+            continue
         verdict_calls = sk.calls(lambda nm: nm in ('select_unnested', 'select_simple') or nm.endswith('writer.write'))
         if not verdict_calls:
             rep.undecided(sk.name, w, 'no verdict-returning call found')
